@@ -1,7 +1,7 @@
 #!/bin/bash
 # Runs every mutant (my own in mutants/, the sub-agents' in seeded/) against the checks that own the
 # touched behaviour and writes one line per (mutant, check): caught / silent / inconclusive.
-# usage: MUT_ID=2 tools/mutant_matrix.sh > notes/mutant-matrix.txt      (takes about an hour)
+# usage: MUT_ID=2 tools/mutant_matrix.sh [own|seeded] > notes/mutant-matrix.txt      (takes about an hour each)
 cd /verif
 checks_for() {
   case "$1" in
@@ -13,7 +13,7 @@ checks_for() {
     *) echo "";;
   esac
 }
-for f in mutants/*.diff; do
+[ "$1" = seeded ] || for f in mutants/*.diff; do
   n=$(basename $f .diff)
   for c in $(checks_for $n); do
     out=$(LINES_SHOWN=1 tools/mutant.sh $f $c 2>&1 | head -1)
@@ -22,7 +22,7 @@ for f in mutants/*.diff; do
     echo "own    $n $c $v"
   done
 done
-for d in seeded/*/; do
+[ "$1" = own ] || for d in seeded/*/; do
   n=$(basename $d)
   own=${n%-*}
   extra=$(python3 -c "import json;print(' '.join(c for c in json.load(open('$d/meta.json')).get('caught_by_checks',[]) if c!='$own'))")
